@@ -223,17 +223,27 @@ def run_conn(chunks, LOG):
     return pool.events, t.written, t.closed, conn._spool
 
 
-def mk_chunking(which, cuts, lo, hi):
+def mk_chunking(which, cuts, lo, hi, windows=False):
     def make(reach):
         LOG = _setup()
         STREAM = streams()[which]
         N = len(STREAM)
         POS = list(range(N + 1))
+        if windows:
+            # cut positions within +-3 bytes of every frame boundary (the stream is too long for all pairs)
+            from aiocoap.transports import tcp
+            bounds, off = [0], 0
+            while off < N:
+                off += sum(tcp._extract_message_size(STREAM[off:off + 8]))
+                bounds.append(off)
+            POS = sorted(set(p for b in bounds for p in range(b - 3, b + 4) if 0 <= p <= N))
         WHOLE = run_conn([STREAM], LOG)
         assert not WHOLE[2] and WHOLE[3] == b"" and len([e for e in WHOLE[0] if e[0] == "msg"]) >= 3
 
+        NP = len(POS) - 1
+
         def h(i1: int, i2: int, i3: int) -> None:
-            assert lo <= i1 < hi and i1 <= i2 <= i3 <= N and (cuts == 3 or i3 == N)
+            assert lo <= i1 < min(hi, NP + 1) and i1 <= i2 <= i3 <= NP and (cuts == 3 or i3 == NP)
             c1, c2, c3 = pick(POS, i1), pick(POS, i2), pick(POS, i3)
             parts = run_conn([STREAM[:c1], STREAM[c1:c2], STREAM[c2:c3], STREAM[c3:]], LOG)
             assert parts == WHOLE
@@ -502,6 +512,14 @@ def obligations(tier):
             obs.append(Obligation("chunking-%s-2cut-%02d" % (which, lo), mk_chunking(which, 2, lo, min(lo + step, n + 1)), 280 if q else 1500,
                                   functions=FC[:1] + F, symbolic={"first cut": "index %d..%d" % (lo, min(lo + step, n + 1) - 1), "second cut": "index >= first"},
                                   concrete={"stream": "CSM, GET, 2.05 (body 12), 2.05 (body 13), Ping, empty"}))
+    for lo in range(0, 22, 11):
+        obs.append(Obligation("chunking-long-windows-2cut-%02d" % lo, mk_chunking("long", 2, lo, lo + 11, windows=True), 280 if q else 1500,
+                              functions=FC[:1] + F, symbolic={"two cut positions": "indices over positions within 3 bytes of each frame boundary"},
+                              concrete={"stream": "CSM, 2.04 (body 268), 2.04 (body 269, 8-byte token), GET"}))
+    if not q:
+        for lo in range(0, 45, 5):
+            obs.append(Obligation("chunking-short-3cut-%02d" % lo, mk_chunking("short", 3, lo, lo + 5), 1500, functions=FC[:1] + F,
+                                  symbolic={"three cut positions": "indices 0..44, ordered"}, concrete={"stream": "short catalogue stream"}))
     for which in ("short", "long"):
         obs.append(Obligation("bytewise-%s" % which, mk_bytewise(which), 280 if q else 900, functions=FC[:1] + F,
                               symbolic={"chunk size": "1..8", "offset of first chunk": "0..7"}, concrete={"stream": which}))
